@@ -164,12 +164,20 @@ func first(s []string, n int) []string {
 func ClassifyCrash(stderr string) (class, sig string) {
 	switch {
 	case strings.Contains(stderr, "stack overflow") || strings.Contains(stderr, "goroutine stack exceeds"):
+		// the recursing function is the most frequent vuego frame of the trace
 		fn := "?"
 		re := regexp.MustCompile(`(?m)^github.com/titpetric/vuego[^\s(]*\.([A-Za-z0-9_().*]+)\(`)
-		if m := re.FindStringSubmatch(stderr); m != nil {
-			fn = m[1]
+		cnt := map[string]int{}
+		for _, m := range re.FindAllStringSubmatch(stderr, -1) {
+			cnt[m[1]]++
 		}
-		return "fatal-stack-overflow", "fatal stack overflow in " + fn
+		best := 0
+		for f, n := range cnt {
+			if n > best || (n == best && f < fn) {
+				fn, best = f, n
+			}
+		}
+		return "fatal-stack-overflow", "fatal stack overflow (process killed), recursion in " + fn
 	case strings.Contains(stderr, "fatal error:"):
 		i := strings.Index(stderr, "fatal error:")
 		return "fatal-error", "fatal: " + firstLine(stderr[i:])
